@@ -1,0 +1,12 @@
+//go:build verif
+
+package fzf
+
+// Verification hooks (build tag verif) for the output property: the implementation's own
+// ANSI stripper, used by the harness as the oracle for "escape sequences removed".
+
+// VerifOutputStripAnsi returns the text extractColor keeps (what --ansi prints).
+func VerifOutputStripAnsi(s string) string {
+	trimmed, _, _ := extractColor(s, nil, nil)
+	return trimmed
+}
